@@ -62,6 +62,11 @@ FAULTS = [
     [("callDisc",), S, ("timer", "discwait"), S, ("eof",), S], [("callDisc",), S, ("timer", "discwait"), S, ("reset",), S, S],
     [("callDisc",), S, ("timer", "discwait"), S, ("data", ["garbage"]), S], [("callDisc",), ("timer", "discwait"), S, S, ("eof",)],
     [("callDisc",), S, ("timer", "discwait"), S, ("setWrite", 0), ("data", ["pingreq"]), S],
+    # ... the caller gives that disconnect() up as well, the hello is answered late - the session IS established, with a
+    # cause already on record - and then the connection is lost: a session that ends is reported, whatever was recorded
+    [("callDisc",), S, ("timer", "discwait"), S, S, S, ("cancel", "disc"), S, ("data", ["hello:11"]), S, ("reset",), S, S],
+    [("callDisc",), S, ("timer", "discwait"), S, S, S, ("cancel", "disc"), S, ("data", ["hello:11"]), S, ("eof",), S, S],
+    [("callDisc",), S, ("timer", "discwait"), S, S, S, ("cancel", "disc"), S, ("data", ["hello:11"]), S, ("data", ["other", "garbage"]), S, S],
 ]
 
 
@@ -278,6 +283,10 @@ def spec_c07(obs, lines):
     stops = [x for x in d["stops"].strip("[]").split(" ") if x]
     if ever and d["st"] == "closed" and len(stops) != 1:
         return "no-stop-after-session", len(obs) - 1
+    # a session whose transport is gone has ended, whatever had been recorded before: once the loop is idle the callback
+    # has been made ("no matter how many close causes occur or in which order")
+    if ever and d["tr"] == "closed" and len(stops) != 1:
+        return "no-stop-after-transport-lost", len(obs) - 1
     return None
 
 
